@@ -97,3 +97,12 @@ def _register_immutables():
 
 
 _register_immutables()
+
+
+@EX.external('decimal.Decimal')
+def _decimal(eng, st, args, kwargs):
+    yield st, ('opaque',)
+
+
+import decimal as _dec
+EX.externals[_dec.Decimal] = _decimal
